@@ -23,10 +23,17 @@ type C11Config struct {
 	Trigger   string `json:"trigger"`   // cron | onchange
 	JobType   string `json:"job_type"`
 	OnError   string `json:"on_error"` // none | log | rerun | log+rerun | log1
+	// Restart: the definition is added unpaused (on a schedule that never fires), the hub is restarted, and the job
+	// object the restarted hub's own cron holds is fired twice
+	Restart bool `json:"restart,omitempty"`
 }
 
 func (c C11Config) String() string {
-	return fmt.Sprintf("source=%s transform=%s sink=%s trigger=%s jobType=%s onError=%s", c.Source, c.Transform, c.Sink, c.Trigger, c.JobType, c.OnError)
+	s := fmt.Sprintf("source=%s transform=%s sink=%s trigger=%s jobType=%s onError=%s", c.Source, c.Transform, c.Sink, c.Trigger, c.JobType, c.OnError)
+	if c.Restart {
+		s += " firedTwiceAfterRestart"
+	}
+	return s
 }
 
 func (c C11Config) definition(h *server.VHist, id string) map[string]interface{} {
@@ -76,6 +83,10 @@ func (c C11Config) definition(h *server.VHist, id string) map[string]interface{}
 		trig["monitoredDataset"] = h.DsName("A")
 	}
 	def := map[string]interface{}{"id": id, "title": id, "source": src, "sink": sink, "triggers": []interface{}{trig}, "batchSize": 2, "paused": true}
+	if c.Restart {
+		def["paused"] = false
+		trig["schedule"] = jNeverSchedule
+	}
 	switch c.Transform {
 	case "js-identity":
 		def["transform"] = map[string]interface{}{"Type": "JavascriptTransform", "Code": base64.StdEncoding.EncodeToString([]byte(`function transform_entities(entities) { return entities; }`))}
@@ -115,8 +126,20 @@ func c11Configs() []C11Config {
 				for _, tr := range []string{"cron", "onchange"} {
 					for _, jt := range []string{"incremental", "fullsync"} {
 						for _, oe := range []string{"none", "log", "rerun", "log+rerun", "log1"} {
-							out = append(out, C11Config{s, t, k, tr, jt, oe})
+							out = append(out, C11Config{Source: s, Transform: t, Sink: k, Trigger: tr, JobType: jt, OnError: oe})
 						}
+					}
+				}
+			}
+		}
+	}
+	// the objects a restarted hub schedules by itself (Scheduler.Start), fired twice
+	for _, s := range []string{"dataset", "sample", "multi"} {
+		for _, t := range []string{"none", "js-identity", "js-throws"} {
+			for _, k := range []string{"dataset", "failing", "missing-dataset"} {
+				for _, jt := range []string{"incremental", "fullsync"} {
+					for _, oe := range []string{"none", "log", "rerun", "log+rerun", "log1"} {
+						out = append(out, C11Config{Source: s, Transform: t, Sink: k, Trigger: "cron", JobType: jt, OnError: oe, Restart: true})
 					}
 				}
 			}
@@ -136,6 +159,9 @@ type c11Out struct {
 // (differential) the same definition is run with a recording sink, once undisturbed and once per k with a second
 // request for the same job arriving while the sink handles its k-th call: the refused request must change nothing.
 func c11Run(cfg C11Config) (out c11Out) {
+	if cfg.Restart {
+		return c11RestartRun(cfg)
+	}
 	out, _ = c11RunOnce(cfg, -1)
 	if !out.Accepted || out.HarnessEr != "" || len(out.Viol) > 0 {
 		return
@@ -363,4 +389,97 @@ func init() {
 		// HTTP-typed sources, sinks and transforms against a real peer; a run killed while the peer stalls
 		jPeerPart(r, "C11")
 	})
+}
+
+// c11RestartRun: the definition is accepted by a running hub, the hub is restarted, and what the restarted hub's cron
+// holds for the job is fired twice (the second firing re-uses the job object, as every cron tick after the first does).
+func c11RestartRun(cfg C11Config) (out c11Out) {
+	jw := jWorld()
+	h := jw.W.NewHist()
+	fail := func(clause, what string) {
+		out.Viol = append(out.Viol, engine.Violation{Key: "C11:" + clause + "|" + cfg.String(), What: cfg.String() + ": " + what})
+	}
+	if err := h.EnsureDatasets("A", "B", "Z"); err != nil {
+		out.HarnessEr = err.Error()
+		return
+	}
+	pool := model.Pool(0)
+	pi := func(n string) int { return model.PoolIndex(pool, n) }
+	_ = h.ApplyWrite(server.VOp{K: "batch", DS: "A", Ents: []server.VEnt{{ID: "e1", C: pi("v1r2")}, {ID: "e2", C: pi("v1")}, {ID: "e3", C: pi("dv1")}}})
+	_ = h.ApplyWrite(server.VOp{K: "batch", DS: "B", Ents: []server.VEnt{{ID: "e2", C: pi("v2")}}})
+	jw.Jobs++
+	id := fmt.Sprintf("job-%s-%d", h.Tag, jw.Jobs)
+	b, _ := json.Marshal(cfg.definition(h, id))
+	jc, err := jw.Sched.Parse(b)
+	if err != nil {
+		out.Outcome = "unparsable"
+		return
+	}
+	if err := jw.Sched.AddJob(jc); err != nil {
+		out.Outcome = "rejected: " + strings.SplitN(err.Error(), ":", 2)[0]
+		return
+	}
+	out.Accepted = true
+	if len(jw.heldJobs(id)) != 1 {
+		out.HarnessEr = fmt.Sprintf("the cron of the running hub holds %d job objects for %s", len(jw.heldJobs(id)), id)
+		return
+	}
+	jw.Restart()
+	held := jw.heldJobs(id)
+	if len(held) != 1 {
+		out.HarnessEr = fmt.Sprintf("the cron of the restarted hub holds %d job objects for %s", len(held), id)
+		return
+	}
+	jb := held[0]
+	if cfg.Sink == "failing" {
+		jb.pipeline.spec().sink = &failSink{inner: jb.pipeline.spec().sink, h: h, F: map[string]bool{"e2": true}}
+	}
+	for firing := 1; firing <= 2; firing++ {
+		fullBefore, incrBefore := jw.Runner.raffle.ticketsFull, jw.Runner.raffle.ticketsIncr
+		start := time.Now()
+		panicked := ""
+		func() {
+			defer func() {
+				if r := recover(); r != nil {
+					panicked = fmt.Sprint(r)
+				}
+			}()
+			jobrunner.New(jb).Run()
+		}()
+		if panicked != "" {
+			if len(panicked) > 300 {
+				panicked = panicked[:300]
+			}
+			fail("run-crashes-hub", fmt.Sprintf("firing %d after the restart panics outside any recovery, which terminates the hub process: %s", firing, panicked))
+		}
+		if len(jw.Sched.GetRunningJobs()) != 0 {
+			fail("slot-not-released", fmt.Sprintf("after firing %d GetRunningJobs still lists %v", firing, jw.Sched.GetRunningJobs()))
+		}
+		if jw.Runner.raffle.ticketsFull != fullBefore || jw.Runner.raffle.ticketsIncr != incrBefore {
+			fail("ticket-not-returned", fmt.Sprintf("firing %d: tickets before %d/%d after %d/%d", firing, fullBefore, incrBefore, jw.Runner.raffle.ticketsFull, jw.Runner.raffle.ticketsIncr))
+		}
+		found := false
+		for _, hst := range jw.Sched.GetJobHistory() {
+			if hst.ID == id {
+				found = true
+				if hst.End.Before(start) {
+					fail("result-stale", fmt.Sprintf("after firing %d the stored run result is older than the run", firing))
+				}
+				o := "ok"
+				if hst.LastError != "" {
+					o = "failed"
+				}
+				out.Outcome += o + " "
+			}
+		}
+		if !found && panicked == "" {
+			fail("no-run-result", fmt.Sprintf("firing %d ended but no run result was stored for the job", firing))
+		}
+		if panicked != "" {
+			// the raffle may be left with a lost ticket: the world is not used again
+			jDestroyWorld()
+			return
+		}
+	}
+	return
 }
